@@ -10,6 +10,12 @@ type Explorer struct {
 	// scheduler plus at most Bound deviations) instead of counting preemptions only.
 	Delay bool
 	Bound int
+	// Unbounded explores ALL interleavings (no preemption bound) with state-key pruning: an
+	// execution is cut as soon as it reaches a global state (causal-history hash) that was
+	// reached before; from every distinct state every enabled transition is taken.
+	Unbounded bool
+	States    int // distinct states visited (Unbounded)
+	Pruned    int // executions cut at a visited state
 	// RootShard/RootShards split one exploration over several workers: the alternatives
 	// branching off the default execution are dealt round-robin; shard 0 also owns the default execution.
 	RootShard, RootShards int
@@ -29,6 +35,7 @@ type Explorer struct {
 	Fail       string
 	FailTrace  []int
 	Infra      string
+	seen       map[uint64]struct{}
 }
 
 func (x *Explorer) preempts(p Point, choice int) bool {
@@ -41,7 +48,70 @@ func (x *Explorer) preempts(p Point, choice int) bool {
 // Explore runs the search. It stops at the first failure.
 func (x *Explorer) Explore() {
 	x.Outcomes = map[string]int{}
+	if x.Unbounded {
+		x.seen = map[uint64]struct{}{}
+		x.exploreU(nil)
+		x.States = len(x.seen)
+		return
+	}
 	x.explore(nil)
+}
+
+func (x *Explorer) exploreU(prefix []int) {
+	if x.Fail != "" || x.Infra != "" || x.Capped {
+		return
+	}
+	if (x.MaxExec > 0 && x.Executions >= x.MaxExec) || (x.Stop != nil && x.Executions%64 == 0 && x.Stop()) {
+		x.Capped = true
+		return
+	}
+	opt := x.Opt
+	opt.Visit = func(k uint64) bool {
+		if _, ok := x.seen[k]; ok {
+			return false
+		}
+		x.seen[k] = struct{}{}
+		return true
+	}
+	e := Run(prefix, opt, x.Body)
+	x.Executions++
+	if e.Diverged != "" {
+		x.Infra = e.Diverged
+		x.FailTrace = append([]int{}, prefix...)
+		return
+	}
+	x.Steps += int64(len(e.Points))
+	if len(e.Points) > x.MaxPoints {
+		x.MaxPoints = len(e.Points)
+	}
+	if e.Pruned {
+		x.Pruned++
+	} else {
+		outcome, fail := x.Check(e)
+		x.Outcomes[outcome]++
+		if fail != "" {
+			e2 := Run(e.Trace, x.Opt, x.Body)
+			o2, f2 := x.Check(e2)
+			if e2.Diverged != "" || o2 != outcome || f2 != fail {
+				x.Infra = fmt.Sprintf("schedule not reproducible: first %q/%q, replay %q/%q %s", outcome, fail, o2, f2, e2.Diverged)
+				x.FailTrace = append([]int{}, e.Trace...)
+				return
+			}
+			x.Fail = fail
+			x.FailTrace = append([]int{}, e.Trace...)
+			return
+		}
+	}
+	choices := e.Trace
+	for i := len(prefix); i < len(e.Points); i++ {
+		p := e.Points[i]
+		for alt := 1; alt < p.Enabled; alt++ {
+			x.exploreU(append(append([]int{}, choices[:i]...), alt))
+			if x.Fail != "" || x.Infra != "" || x.Capped {
+				return
+			}
+		}
+	}
 }
 
 func (x *Explorer) explore(prefix []int) bool {
